@@ -21,6 +21,9 @@ type Job struct {
 	MaxDepth int
 	MaxPaths int
 	TrackAccess bool
+	TimeLimit   time.Duration
+	Budget      int                  // path budget before falling back to Narrow[i]
+	Narrow      []map[string]*DocCfg // successively narrower document bounds
 
 	nodes    map[string]*DocNode
 	nodeList []*DocNode
@@ -55,6 +58,8 @@ type PathResult struct {
 type JobResult struct {
 	Job        *Job
 	Paths      []PathResult
+	NPaths     int
+	BoundUsed  int // 0 = the job's own bound, i = Narrow[i-1]
 	NDone      int
 	NSkipped   int
 	NAborted   int
@@ -68,8 +73,35 @@ type JobResult struct {
 	Labels     map[string]int // assertion label -> times reached
 }
 
-// Explore runs the job's harness over all symbolic paths (DFS).
+// Explore runs the job's harness over all symbolic paths (DFS). If the job
+// has a path budget and narrower document bounds to fall back to, a run that
+// exceeds the budget is discarded and repeated under the next narrower bound;
+// the bound actually used is recorded in the result.
 func (w *Worker) Explore(job *Job, wantFixtures bool) *JobResult {
+	if job.Budget > 0 && len(job.Narrow) > 0 {
+		orig := job.Docs
+		saved := job.MaxPaths
+		for i := -1; i < len(job.Narrow); i++ {
+			if i >= 0 {
+				job.Docs = job.Narrow[i]
+			}
+			job.MaxPaths = job.Budget
+			if i == len(job.Narrow)-1 {
+				job.MaxPaths = saved
+			}
+			r := w.exploreOnce(job, wantFixtures)
+			if !r.Truncated || i == len(job.Narrow)-1 {
+				r.BoundUsed = i + 1
+				job.MaxPaths = saved
+				_ = orig
+				return r
+			}
+		}
+	}
+	return w.exploreOnce(job, wantFixtures)
+}
+
+func (w *Worker) exploreOnce(job *Job, wantFixtures bool) *JobResult {
 	t0 := time.Now()
 	job.reset()
 	w.Job = job
@@ -98,6 +130,8 @@ func (w *Worker) Explore(job *Job, wantFixtures bool) *JobResult {
 	q0 := w.Solver.Queries
 	f0 := w.Forks
 	stack := []*State{st}
+	violSeen := map[string]int{}
+	nWitness := 0
 	maxPaths := job.MaxPaths
 	if maxPaths == 0 {
 		maxPaths = 200000
@@ -115,7 +149,7 @@ func (w *Worker) Explore(job *Job, wantFixtures bool) *JobResult {
 			}
 		}
 		w.Paths++
-		pr := PathResult{Status: cur.Status, Msg: cur.AbortMsg, Choices: cur.choices, Viol: cur.Viol, Out: cur.Out, Steps: cur.steps}
+		res.NPaths++
 		for _, l := range cur.Log {
 			if strings.HasPrefix(l, "assert:") {
 				res.Labels[l[7:]]++
@@ -134,21 +168,43 @@ func (w *Worker) Explore(job *Job, wantFixtures bool) *JobResult {
 		case PathPanicked:
 			res.NPanicked++
 			cur.recordViolation("uncaught-panic", "a Go panic escaped the harness: "+show(cur.panicVal))
-			pr.Viol = cur.Viol
 		}
 		if len(cur.Viol) > 0 {
 			res.NViol++
 		}
-		if (wantFixtures && (cur.Status == PathDone || cur.Status == PathPanicked)) || len(cur.Viol) > 0 {
-			pr.Fixture = w.buildFixture(cur)
-			if pr.Fixture == nil && cur.Status != PathAborted {
-				pr.Status = PathAborted
-				pr.Msg = "no model for completed path"
-				res.NAborted++
+		keep := false
+		var fx *Fixture
+		switch {
+		case len(cur.Viol) > 0:
+			// keep a bounded number of violating paths per label set
+			key := ""
+			for _, v := range cur.Viol {
+				key += v.Label + ","
+			}
+			violSeen[key]++
+			if violSeen[key] <= 3 {
+				fx = w.buildFixture(cur)
+				keep = true
+			}
+		case cur.Status == PathAborted:
+			keep = res.NAborted <= 5
+		case wantFixtures && cur.Status == PathDone:
+			// sample witnesses: the first two paths and a pseudo-random 1 in 64 after that, at most 8 per job
+			if nWitness < 8 && (res.NDone <= 2 || (uint32(res.NDone)*2654435761)>>26 == 0) {
+				fx = w.buildFixture(cur)
+				if fx == nil {
+					res.NAborted++
+					res.AbortMsgs = append(res.AbortMsgs, "no model for a completed path")
+				} else {
+					nWitness++
+					keep = true
+				}
 			}
 		}
-		res.Paths = append(res.Paths, pr)
-		if len(res.Paths) >= maxPaths {
+		if keep {
+			res.Paths = append(res.Paths, PathResult{Status: cur.Status, Msg: cur.AbortMsg, Choices: cur.choices, Viol: cur.Viol, Steps: cur.steps, Fixture: fx})
+		}
+		if res.NPaths >= maxPaths || (job.TimeLimit > 0 && time.Since(t0) > job.TimeLimit) {
 			res.Truncated = true
 			break
 		}
